@@ -16,6 +16,7 @@ import Ajson.Proofs.History
 import Ajson.Proofs.Sides
 import Ajson.Proofs.CloneSound
 import Ajson.Proofs.Refine
+import Ajson.Proofs.RefineDelete
 import Ajson.Model.Decode
 
 namespace Ajson.Props.C05
@@ -148,6 +149,27 @@ theorem C05_delete_key_removes_the_member {h : Heap} (hs : Struct h) (ha : Acyc 
     (∀ kvs, absVal (fuel + 1) h n = some (.obj kvs) →
       absVal (fuel + 1) (h.popKey (some n) k).1 n = some (.obj (kvs.filter (fun y => !(y.1 == k))))) :=
   deleteKey_refines hs ha n hn hobj k c hl fuel
+
+/-- **deleting an element of an array is "remove the element"** — the one mutator with a loop (the elements behind the deleted one are
+renumbered: their `index` fields and their keys in the children map change): `remove` of an element, which DeleteNode, DeleteIndex,
+PopIndex and Delete() of an element run, is accepted, the receiver denotes its old elements without the deleted one — the renumbering
+is invisible in the value — and all nodes off the receiver's ancestor chain, the deleted element included, keep their value -/
+theorem C05_delete_element_removes_it {h : Heap} (hs : Struct h) (ha : Acyc h) (n value : Nat) (hv : value < h.size)
+    (hpar : (h.get value).parent = some n) (harr : (h.get n).type = .array) (fuel : Nat) :
+    (h.remove n value).2 = .ok () ∧
+    (∀ m : Id, ¬ Anc h m n → absVal fuel (h.remove n value).1 m = absVal fuel h m) ∧
+    (∃ idx, (h.get value).index = some idx ∧ ∀ xs, absVal (fuel + 1) h n = some (.arr xs) →
+      absVal (fuel + 1) (h.remove n value).1 n = some (.arr (xs.eraseIdx idx))) :=
+  removeArray_refines hs ha n value hv hpar harr fuel
+
+/-- … as DeleteIndex / PopIndex(i) for an index inside the array -/
+theorem C05_delete_index_removes_the_element {h : Heap} (hs : Struct h) (ha : Acyc h) (n : Nat) (hn : n < h.size) (harr : (h.get n).type = .array)
+    (i : Nat) (hi : i < (h.childMap n).length) (fuel : Nat) :
+    (∃ c, (h.popIndex (some n) (i : Int)).2 = .ok c) ∧
+    (∀ m : Id, ¬ Anc h m n → absVal fuel (h.popIndex (some n) (i : Int)).1 m = absVal fuel h m) ∧
+    (∀ xs, absVal (fuel + 1) h n = some (.arr xs) →
+      absVal (fuel + 1) (h.popIndex (some n) (i : Int)).1 n = some (.arr (xs.eraseIdx i))) :=
+  deleteIndex_refines hs ha n hn harr i hi fuel
 
 /-- what a node denotes depends only on the types, scalar payloads and children maps of its subtree (the frame rule behind the three
 theorems, usable for any other pair of heaps) -/
